@@ -344,4 +344,199 @@ theorem settlePage_count : ∀ (page : List (Nat × Nat × Nat × Nat)) (s : Sta
       simp only [hv, Bool.false_eq_true, if_false] at a
       omega
 
+-- ---------------------------------------------------------------------------------------------
+-- one iteration of BatchMarketSettlements
+
+theorem any_pending_iff (s : State) (mk : Nat) : s.pending.any (fun x => x.1 == mk) = true ↔ 0 < pendCount s mk := by
+  unfold pendCount
+  rw [List.any_eq_true, List.length_pos_iff_exists_mem]
+  constructor
+  · rintro ⟨x, hx, hp⟩
+    exact ⟨x, List.mem_filter.mpr ⟨hx, hp⟩⟩
+  · rintro ⟨x, hx⟩
+    have := List.mem_filter.mp hx
+    exact ⟨x, this.1, this.2⟩
+
+/-- how the bet end-blocker changes the books: the number of unpaid participations of every book stays; the books of
+    the markets `D` that finished go from ACTIVE to RESOLVED; every other book keeps its status -/
+structure BetBooks (s s' : State) (D : List Nat) : Prop where
+  unpaid : ∀ u, unpaidOf s' u = unpaidOf s u
+  status : ∀ u, u ∉ D → statusOf s' u = statusOf s u
+  resolved : ∀ u ∈ D, statusOf s u = some OB_ACTIVE ∧ statusOf s' u = some OB_RESOLVED
+
+theorem BetBooks.of_same {s s' : State} (h : SameBooks s s') : BetBooks s s' [] :=
+  ⟨fun u => (h u).2, fun u _ => (h u).1, fun _ hu => nomatch hu⟩
+
+theorem BetBooks.cons {s s1 s' : State} {h : Nat} {D : List Nat} (h1 : BetBooks s s1 [h]) (h2 : BetBooks s1 s' D)
+    (hn : h ∉ D) : BetBooks s s' (h :: D) := by
+  refine ⟨fun u => (h2.unpaid u).trans (h1.unpaid u), ?_, ?_⟩
+  · intro u hu
+    rw [h2.status u (fun hin => hu (List.mem_cons_of_mem _ hin)),
+      h1.status u (fun hin => hu (by rw [List.mem_singleton.mp hin]; exact List.mem_cons_self ..))]
+  · intro u hu
+    rcases List.mem_cons.mp hu with rfl | hu
+    · exact ⟨(h1.resolved u (List.mem_singleton.mpr rfl)).1,
+        (h2.status u hn).trans (h1.resolved u (List.mem_singleton.mpr rfl)).2⟩
+    · have hne : u ≠ h := fun e => hn (e ▸ hu)
+      exact ⟨(h1.status u (fun hin => hne (List.mem_singleton.mp hin))) ▸ (h2.resolved u hu).1, (h2.resolved u hu).2⟩
+
+/-- C05: one iteration of the bet end-blocker on the head market `mk` with budget `n`, exactly.
+    The page holds `min n (pending of mk)` bets and all of them are settled; no other market loses a pending entry.
+    Either (finished) no pending bet of `mk` is left: `mk` leaves the market queue, its book goes from ACTIVE to
+    RESOLVED and `mk` is appended to the order-book queue; or (budget exhausted) the whole budget was used, pending
+    bets of `mk` remain and queues and books are as they were. -/
+theorem betEndBlockStep_spec {s : State} {mk n : Nat} {R : List Nat} {r : State × Nat} (hI : BetIdx s) (hS : SettleInv s)
+    (hq : s.mqueue = mk :: R) (hnd : mk ∉ R) (h : betEndBlockStep s mk n = some r) :
+    r.2 = min n (pendCount s mk) ∧ pendCount r.1 mk + r.2 = pendCount s mk ∧
+    (∀ v, v ≠ mk → pendCount r.1 v = pendCount s v) ∧ r.1.params = s.params ∧
+    ((pendCount r.1 mk = 0 ∧ r.1.mqueue = R ∧ r.1.obqueue = s.obqueue ++ [mk] ∧ BetBooks s r.1 [mk]) ∨
+     (0 < pendCount r.1 mk ∧ r.2 = n ∧ r.1.mqueue = s.mqueue ∧ r.1.obqueue = s.obqueue ∧ SameBooks s r.1)) := by
+  unfold betEndBlockStep at h
+  simp only [bind, Option.bind_eq_some_iff] at h
+  obtain ⟨r0, h0, h⟩ := h
+  have hsub : ((s.pending.filter (fun x => x.1 == mk)).take n).Sublist s.pending :=
+    (List.take_sublist _ _).trans List.filter_sublist
+  have hpw : ((s.pending.filter (fun x => x.1 == mk)).take n).Pairwise (fun a b => (ikey a == ikey b) = false) := by
+    have := hI.sPend
+    unfold Sorted at this
+    exact (List.Pairwise.sublist hsub this).imp (fun {a b} hab => ltL_ne _ _ hab)
+  obtain ⟨g1, g2, g3, g4, g5⟩ := settlePage_count _ s r0 hI hS h0 (fun x hx => hsub.subset hx) hpw
+  have hc := c05_page_settled_count _ _ _ h0
+  have hlen : r0.2 = min n (pendCount s mk) := by rw [hc, List.length_take]; rfl
+  have hall : ∀ x ∈ (s.pending.filter (fun x => x.1 == mk)).take n, (x.1 == mk) = true :=
+    fun x hx => (List.mem_filter.mp (List.mem_of_mem_take hx)).2
+  have hmk : pendCount r0.1 mk + r0.2 = pendCount s mk := by
+    have := g1 mk
+    rw [List.filter_eq_self.mpr hall, ← hc] at this
+    exact this
+  have hoth : ∀ v, v ≠ mk → pendCount r0.1 v = pendCount s v := by
+    intro v hv
+    have := g1 v
+    have hnil : ((s.pending.filter (fun x => x.1 == mk)).take n).filter (fun y => y.1 == v) = [] := by
+      rw [List.filter_eq_nil_iff]
+      intro x hx hxv
+      have e1 : x.1 = mk := by simpa using hall x hx
+      have e2 : x.1 = v := by simpa using hxv
+      exact hv (e2 ▸ e1)
+    rw [hnil] at this
+    simpa using this
+  split at h
+  · rename_i hany
+    simp only [pure, Option.some.injEq] at h
+    subst h
+    have hpos := (any_pending_iff r0.1 mk).mp hany
+    refine ⟨hlen, hmk, hoth, g5, Or.inr ⟨hpos, ?_, g3, g4, g2⟩⟩
+    omega
+  · rename_i hany
+    simp only [bind, Option.bind_eq_some_iff, pure, Option.some.injEq] at h
+    obtain ⟨q, hgo, s2, h2, rfl⟩ := h
+    have hzero : pendCount r0.1 mk = 0 := by
+      have : ¬ 0 < pendCount r0.1 mk := fun hp => hany ((any_pending_iff r0.1 mk).mpr hp)
+      omega
+    rw [g3, hq, goRemove_head mk R hnd] at hgo
+    cases hgo
+    unfold bookResolved at h2
+    simp only [bind, Option.bind_eq_some_iff, pure, Option.some.injEq] at h2
+    obtain ⟨b, hb, _, hact, rfl⟩ := h2
+    have hb : getBook r0.1 mk = some b := hb
+    have hact : b.status = OB_ACTIVE := by simpa using chk_some hact
+    obtain ⟨_, hbu⟩ := getBook_mem hb
+    refine ⟨hlen, hmk, hoth, g5, Or.inl ⟨hzero, rfl, by show r0.1.obqueue ++ [mk] = _; rw [g4], ?_⟩⟩
+    have hsb : ∀ u, getBook (setBook { r0.1 with mqueue := R } { b with status := OB_RESOLVED }) u =
+        if u = mk then some { b with status := OB_RESOLVED } else getBook r0.1 u := by
+      intro u
+      by_cases e : u = mk
+      · subst e
+        simp only [if_true]
+        have := getBook_setBook_self { r0.1 with mqueue := R } { b with status := OB_RESOLVED }
+        rw [← hbu]; exact this
+      · simp only [e, if_false]
+        exact getBook_setBook_ne _ _ u (by show b.uid ≠ u; rw [hbu]; exact Ne.symm e)
+    refine ⟨?_, ?_, ?_⟩
+    · intro u
+      rw [← (g2 u).2]
+      unfold unpaidOf
+      show (match getBook (setBook { r0.1 with mqueue := R } { b with status := OB_RESOLVED }) u with
+        | some b => b.unpaid | none => 0) = _
+      rw [hsb u]
+      by_cases e : u = mk
+      · subst e; simp only [if_true, hb]; rfl
+      · simp only [e, if_false]
+    · intro u hu
+      have e : u ≠ mk := fun e => hu (List.mem_singleton.mpr e)
+      rw [← (g2 u).1]
+      unfold statusOf
+      show (getBook (setBook { r0.1 with mqueue := R } { b with status := OB_RESOLVED }) u).map _ = _
+      rw [hsb u]
+      simp only [e, if_false]
+    · intro u hu
+      have e : u = mk := List.mem_singleton.mp hu
+      subst e
+      constructor
+      · rw [← (g2 u).1]
+        unfold statusOf
+        rw [hb]; simp [hact]
+      · unfold statusOf
+        show (getBook (setBook { r0.1 with mqueue := R } { b with status := OB_RESOLVED }) u).map _ = _
+        rw [hsb u]
+        simp
+
+theorem betEndBlock_zero (fuel : Nat) (s : State) : betEndBlock fuel s 0 = some s := by
+  cases fuel <;> simp [betEndBlock]
+
+/-- C05: BatchMarketSettlements with budget `n` is one FIFO batch on the market queue for the measure "pending bets
+    of the market"; the finished markets `D` are appended, in order, to the order-book queue, their books become
+    RESOLVED, and nothing else about books or parameters changes. (`fuel` = |queue| + 1 always suffices.) -/
+theorem betEndBlock_batch : ∀ (fuel : Nat) (s : State) (n : Nat) (s' : State),
+    BetIdx s → SettleInv s → s.mqueue.Nodup → s.mqueue.length < fuel → betEndBlock fuel s n = some s' →
+    ∃ D, Batch s.mqueue s'.mqueue (pendCount s) (pendCount s') n D ∧ s'.obqueue = s.obqueue ++ D ∧
+      BetBooks s s' D ∧ s'.params = s.params := by
+  intro fuel
+  induction fuel with
+  | zero => intro s n s' _ _ _ hf _; omega
+  | succ fuel ih =>
+    intro s n s' hI hS hnd hf h
+    unfold betEndBlock at h
+    split at h
+    · rename_i hn
+      simp only [Option.some.injEq] at h
+      subst h; subst hn
+      exact ⟨[], Batch.zero _ _, by simp, BetBooks.of_same (SameBooks.refl s), rfl⟩
+    · split at h
+      · rename_i hq
+        simp only [Option.some.injEq] at h
+        subst h
+        rw [hq]
+        exact ⟨[], Batch.empty _ _, by simp, BetBooks.of_same (SameBooks.refl s), rfl⟩
+      · rename_i mk R hq
+        simp only [bind, Option.bind_eq_some_iff] at h
+        obtain ⟨r, hr, h⟩ := h
+        have hnd' := hnd
+        rw [hq, List.nodup_cons] at hnd'
+        obtain ⟨e1, e2, e3, e4, hcase⟩ := betEndBlockStep_spec hI hS hq hnd'.1 hr
+        have hI1 := (betEndBlockStep_good hI hr).1
+        have hS1 := betEndBlockStep_inv hS (by rw [hq]; exact List.mem_cons_self ..) hr
+        rcases hcase with ⟨c1, c2, c3, c4⟩ | ⟨c1, c2, c3, c4, c5⟩
+        · -- the head market is finished
+          obtain ⟨D, hB, hob, hbk, hpar⟩ := ih r.1 (n - r.2) s' hI1 hS1 (by rw [c2]; exact hnd'.2)
+            (by rw [c2]; rw [hq] at hf; simp at hf; omega) h
+          have hfit : pendCount s mk ≤ n := by omega
+          have hr2 : r.2 = pendCount s mk := by omega
+          have hnD : mk ∉ D := by
+            intro hin
+            have := hB.split
+            rw [c2] at this
+            exact hnd'.1 (by rw [this]; exact List.mem_append_left _ hin)
+          refine ⟨mk :: D, ?_, ?_, BetBooks.cons c4 hbk hnD, hpar.trans e4⟩
+          · rw [hq]
+            rw [c2, hr2] at hB
+            exact Batch.step (by rw [← hq]; exact hnd) hfit c1 e3 hB
+          · rw [hob, c3]; simp
+        · -- the budget is exhausted on the head market
+          rw [c2, Nat.sub_self, betEndBlock_zero] at h
+          cases h
+          refine ⟨[], ?_, by rw [c4]; simp, BetBooks.of_same c5, e4⟩
+          rw [c3, hq]
+          exact Batch.exhaust (by omega) e3
+
 end Sge.Core
